@@ -114,7 +114,10 @@ def dlAlive (st : St) (id : Nat) : Bool := st.dls.any fun d => d.id == id && d.a
 def agAlive (st : St) (i : Nat) : Bool := match st.agents[i]? with | some a => a.alive | none => false
 
 def killDl (ds : List Dl) (id : Nat) : List Dl := ds.map fun d => if d.id = id then { d with alive := false } else d
-def killAg (as : List Ag) (i : Nat) : List Ag := (as.zipIdx).map fun p => if p.2 = i then { p.1 with alive := false } else p.1
+def killAg : List Ag → Nat → List Ag
+  | [], _ => []
+  | a :: as, 0 => { a with alive := false } :: as
+  | a :: as, i + 1 => a :: killAg as i
 
 /-- every far end that is still open sees its channel end when the task goes away -/
 def endEvents (st : St) : List Ev :=
@@ -132,9 +135,11 @@ def isRequest : Kind → Bool
 keeps the body only **if it is empty** (`if body.is_empty() { Some(*body) } else { None }`) and an empty body is
 decoded as absent, so nothing ever arrives. -/
 def deliveredBody (k : Kind) (body : Str) : Option Str :=
-  -- `.unlinked`: `Some("")` (kept only when empty) is absent on the wire, a non-empty body is replaced by `None`
   match k with
   | .event => some body
+  | .unlinked =>
+    -- `unlinkedBodyDropped`: `if body.is_empty() { Some(*body) } else { None }`; `Some("")` is absent on the wire
+    if Generated.Env.unlinkedBodyDropped then none else (if body.isEmpty then none else some body)
   | _ => none
 
 /-- what the property asks for: the body that was on the wire (absent when empty for `Unlinked`) -/
